@@ -3,9 +3,13 @@
 argv[1] is a JSON script:
   k        exit after the k-th received message (0 = before reading anything)
   exit     "0" | "1" | "kill"   (status 0, status 1, SIGKILL on itself)
-  answers  {"<n>": ["result", v] | ["error", code]}  reply to the n-th message (1-based) if it is a
-           request; replies to messages n < k are written at once, the reply to message k (a "late"
-           reply, racing with the exit) just before the tail
+  answers  {"<n>": ["result", payload] | ["error", code] | ["bad", kind]}  reply to the n-th message
+           (1-based) if it is a request; replies to messages n < k are written at once, the reply to
+           message k (a "late" reply, racing with the exit) just before the tail.  "bad" replies name
+           the request but cannot be decoded / are not accepted by the client:
+             errshape  "error" member that is not an error object
+             version   a result under another protocol version ("jsonrpc": "1.0")
+             badresult a result of the wrong shape for a typed method (a Hover whose range is a number)
   pre      list of byte strings (latin-1) written right after start (complete items: bad frames, junk)
   tail     byte string (latin-1) written just before exiting (partial header / partial body / junk / "")
 """
@@ -63,6 +67,13 @@ def main():
         if a is not None and "id" in msg:
             if a[0] == "result":
                 out.write(frame({"jsonrpc": "2.0", "id": msg["id"], "result": a[1]}))
+            elif a[0] == "bad":
+                if a[1] == "errshape":
+                    out.write(frame({"jsonrpc": "2.0", "id": msg["id"], "error": "boom"}))
+                elif a[1] == "version":
+                    out.write(frame({"jsonrpc": "1.0", "id": msg["id"], "result": 1}))
+                else:
+                    out.write(frame({"jsonrpc": "2.0", "id": msg["id"], "result": {"contents": "x", "range": 3}}))
             else:
                 out.write(frame({"jsonrpc": "2.0", "id": msg["id"],
                                  "error": {"code": a[1], "message": "scripted"}}))
